@@ -91,6 +91,8 @@ pub struct Mon {
     pub rejects: HashMap<(Kind, u32), u64>,
     // C10/C12: health at bracket start (maintenance, equity) per account
     pub bracket: HashMap<Pubkey, (refm::RefHealth, refm::RefHealth)>,
+    // C12: reference deleverage window per group (window start, whole dollars withdrawn)
+    pub delev: HashMap<Pubkey, (i64, u64)>,
 }
 
 /// Program error codes (Anchor custom codes) the monitors need to recognise.
@@ -154,6 +156,9 @@ impl Mon {
         if self.on.iter().any(|p| matches!(*p, "C04" | "C05" | "C07" | "C09" | "C10" | "C11" | "C12")) {
             self.risk_on_ix(w, v, &info);
         }
+        if self.on.iter().any(|p| matches!(*p, "C08" | "C12" | "C13" | "C14" | "C19")) {
+            self.admin_on_ix(w, v, &info);
+        }
     }
 
     pub fn on_tx_commit(&mut self, w: &World, ixs: &[solana_sdk::instruction::Instruction], out: &crate::chain::TxOut) {
@@ -161,6 +166,12 @@ impl Mon {
         self.on_commit(w);
         if self.on.iter().any(|p| matches!(*p, "C10" | "C11" | "C12")) {
             self.brackets_on_commit(w, ixs, out);
+        }
+        if self.en("C14") {
+            self.c14_commit(w, &w.last_pre);
+        }
+        if self.en("C19") {
+            self.c19_commit(w);
         }
     }
 
@@ -176,6 +187,11 @@ impl Mon {
         let code = out.custom_code();
         let idx = out.failing_ix().map(|i| i as usize);
         let failing = idx.and_then(|i| if i >= crate::chain::Chain::IX_SHIFT { ixs.get(i - crate::chain::Chain::IX_SHIFT) } else { None });
+        if let (Some(i), Some(code)) = (idx, code) {
+            if self.en("C14") && i >= crate::chain::Chain::IX_SHIFT && i - crate::chain::Chain::IX_SHIFT < ixs.len() {
+                self.c14_reject(w, ixs, code, i - crate::chain::Chain::IX_SHIFT);
+            }
+        }
         if let (Some(ix), Some(code)) = (failing, code) {
             if ix.program_id == MFI {
                 let kind = Kind::of(&ix.data);
